@@ -232,6 +232,7 @@ func sharingHistories(out *caseOut, cfg string, h tree.HashFn, salt int64) {
 				ops = append(ops, hop{kind: "append", h: 1, src: litRoot})
 			}
 			ops = append(ops, hop{kind: "snap", h: 0}, hop{kind: "snap", h: 1}, hop{kind: "copy", h: 1}, hop{kind: "htr", h: 0},
+				hop{kind: "reinitx"}, hop{kind: "memo"}, hop{kind: "reinit"}, hop{kind: "memo"},
 				hop{kind: "append", h: 1, src: srcSpec{kind: "h", h: 3}}, hop{kind: "len", h: 4}, hop{kind: "htr", h: 4}, hop{kind: "htr", h: 0}, hop{kind: "ser", h: 0},
 				hop{kind: "append", h: 4, src: srcSpec{kind: "h", h: 3}}, hop{kind: "len", h: 1}, hop{kind: "htr", h: 0}, hop{kind: "memo"},
 				hop{kind: "pop", h: 1}, hop{kind: "append", h: 1, src: srcSpec{kind: "h", h: 3}}, hop{kind: "htr", h: 0}, hop{kind: "ser", h: 1})
@@ -719,6 +720,10 @@ func TestC07(t *testing.T) {
 				}
 				do(hop{kind: "htr", h: 0})
 				do(hop{kind: "count", h: 0})
+				if k%4 == 0 {
+					do(hop{kind: "reinit"})
+					do(hop{kind: "count", h: 0})
+				}
 				hg := &histGen{g: g, r: g.r}
 				for m := 0; m < 6; m++ {
 					// pick a target handle: the root or a (nested) sub-view
